@@ -23,7 +23,9 @@
   before that commit).
 
   `svdSolveCert` is the same solver with the factors supplied from outside: the object of the
-  certificate theorems (`C01_svd_cert`, `C03_svd_*`, `C20_svd_*`).
+  theorems `C01_svd_cert`, `C03_svd_*`, `C20_svd_*` (factors as a parameter); for the factors
+  `decompose` returns their hypothesis is proved up to `Unambiguous tol W`
+  (`Svd.decompose_svdCert`; `Props/*/SvdDecompose.lean`, `Props/C01/SvdDecomp.lean`).
 
   Core Lean only.
 -/
